@@ -1,4 +1,5 @@
 import Proofs.Diag
+import Proofs.DiagLabels
 
 /-!
 # C18 — diagnostic statistics count every task and every test result exactly once
@@ -120,6 +121,112 @@ theorem labels_n (ts : List TaskRes) (byLabels : List String) (res : ByLabels)
 /-- a by-labels summary is successful exactly when every row has only successes -/
 theorem labels_success_iff (res : ByLabels) : res.bool = true ↔ ∀ r ∈ res.rows, r.ok = r.total := by
   simp [ByLabels.bool, ByLabels.oracles]
+
+/-! ### The rows of the by-labels summary, exactly -/
+
+theorem lod_nodup (ts : List TaskRes) (h : WFTasks ts) (d : LDict) (hd : d ∈ buildLod ts) :
+    (Browser.Item.keys d).Nodup := by
+  simp only [buildLod, List.mem_flatMap] at hd
+  obtain ⟨t, ht, hd⟩ := hd
+  cases hr : t.results with
+  | none => simp [hr] at hd
+  | some rs =>
+    simp only [hr, List.mem_map] at hd
+    obtain ⟨r, hrm, rfl⟩ := hd
+    exact Browser.keys_set_nodup _ _ _ (Browser.keys_set_nodup _ _ _ (h t ht rs hr r hrm))
+
+/-- a result carries at most one combination of values for the requested labels -/
+theorem carries_unique (ts : List TaskRes) (h : WFTasks ts) (p : Nat) (ls : List String) (v1 v2 : List Val)
+    (h1 : Carries (buildLod ts) p ls v1) (h2 : Carries (buildLod ts) p ls v2) : v1 = v2 := by
+  obtain ⟨d, hd, f1⟩ := h1
+  obtain ⟨d', hd', f2⟩ := h2
+  rw [hd] at hd'; cases hd'
+  have hnd := lod_nodup ts h d (List.mem_of_getElem? hd)
+  induction f1 generalizing v2 with
+  | nil => cases f2; rfl
+  | cons a _ ih =>
+    cases f2 with
+    | cons b f2' =>
+      have e1 := (Browser.get_eq_some_of_mem hnd).1 a
+      have e2 := (Browser.get_eq_some_of_mem hnd).1 b
+      rw [e1] at e2
+      cases e2
+      rw [ih _ f2']
+
+/-- **Each row counts exactly the results that carry the requested labels with the row's values** (`ids` is the set
+the row's `total` is the size of), **every result carrying all the requested labels is in the row of its
+combination, and no combination has two rows.** -/
+theorem labels_rows_exact (ts : List TaskRes) (byLabels : List String) (hne : byLabels ≠ []) (res : ByLabels)
+    (he : evalByLabels ts byLabels = some res) :
+    (∀ r ∈ res.rows, r.ids.Nodup ∧ r.total = r.ids.length ∧
+      ∀ p, p ∈ r.ids ↔ Carries (buildLod ts) p byLabels r.labels) ∧
+    (∀ p vals, Carries (buildLod ts) p byLabels vals → ∃ r ∈ res.rows, r.labels = vals ∧ p ∈ r.ids) ∧
+    (res.rows.map (·.labels)).Nodup := by
+  unfold evalByLabels at he
+  simp only at he
+  split at he
+  · simp only [Option.some.injEq] at he
+    subst he
+    simp only
+    have hwf : IdxWF (buildIndexFrom [] 0 (buildLod ts)) := idxWF_buildIndexFrom _ _ _ idxWF_nil
+    have hsem : Sem (buildLod ts) (buildIndexFrom [] 0 (buildLod ts)) (fun _ => True) := by
+      intro k v p
+      rw [mem_idxGet_buildIndexFrom]
+      constructor
+      · rintro (⟨i, d, h1, h2, h3⟩ | h)
+        · have : p = i := by omega
+          subst this; exact ⟨trivial, d, h1, h3⟩
+        · simp [Browser.idxGet_nil] at h
+      · rintro ⟨_, d, h1, h3⟩; exact Or.inl ⟨p, d, h1, by omega, h3⟩
+    obtain ⟨hA, hB, hC⟩ := rloop_exact (buildLod ts) _ _ byLabels _ [] (fun _ => True) hwf hsem
+    refine ⟨?_, ?_, hC⟩
+    · intro r hr
+      obtain ⟨hnd, vals, hlab, hmem⟩ := hA r hr
+      have hsat : IdsSat (buildIndexFrom [] 0 (buildLod ts)) (fun _ => True) := fun _ _ _ _ _ _ _ _ => trivial
+      obtain ⟨_, htot, _, _⟩ := rloop_rows_sat _ _ _ byLabels _ [] hsat r hr
+      refine ⟨hnd, htot, ?_⟩
+      intro p
+      rw [hmem p]
+      simp only [List.nil_append] at hlab
+      rw [hlab]
+      simp
+    · intro p vals hc
+      obtain ⟨r, hr, hlab, hp⟩ := hB hne p vals trivial hc
+      exact ⟨r, hr, by simpa using hlab, hp⟩
+  · cases he
+
+/-- **The totals add up to the number of results carrying the requested labels**: the rows' id sets are pairwise
+disjoint, so the sum of the `total` column is the size of a duplicate-free list holding exactly the results that carry
+all the requested labels (each counted once). -/
+theorem labels_total (ts : List TaskRes) (h : WFTasks ts) (byLabels : List String) (hne : byLabels ≠ [])
+    (res : ByLabels) (he : evalByLabels ts byLabels = some res) :
+    ∃ L : List Nat, L.Nodup ∧ (∀ p, p ∈ L ↔ ∃ vals, Carries (buildLod ts) p byLabels vals) ∧
+      (res.rows.map (·.total)).sum = L.length := by
+  obtain ⟨hA, hB, hC⟩ := labels_rows_exact ts byLabels hne res he
+  refine ⟨res.rows.flatMap (·.ids), ?_, ?_, ?_⟩
+  · rw [List.nodup_flatMap]
+    refine ⟨fun r hr => (hA r hr).1, ?_⟩
+    have hpw : res.rows.Pairwise (fun a b => a.labels ≠ b.labels) := by
+      rw [List.Nodup, List.pairwise_map] at hC; exact hC
+    have hpw' : res.rows.Pairwise (fun a b => a ∈ res.rows ∧ b ∈ res.rows ∧ a.labels ≠ b.labels) := by
+      rw [List.pairwise_iff_forall_sublist] at hpw ⊢
+      intro a b hab
+      exact ⟨hab.subset (by simp), hab.subset (by simp), hpw hab⟩
+    refine hpw'.imp ?_
+    rintro a b ⟨ha, hb, hab⟩ p hpa hpb
+    exact hab (carries_unique ts h p byLabels _ _ (((hA a ha).2.2 p).1 hpa) (((hA b hb).2.2 p).1 hpb))
+  · intro p
+    rw [List.mem_flatMap]
+    constructor
+    · rintro ⟨r, hr, hp⟩; exact ⟨r.labels, ((hA r hr).2.2 p).1 hp⟩
+    · rintro ⟨vals, hc⟩
+      obtain ⟨r, hr, _, hp⟩ := hB p vals hc
+      exact ⟨r, hr, hp⟩
+  · rw [List.length_flatMap]
+    congr 1
+    apply List.map_congr_left
+    intro r hr
+    exact (hA r hr).2.1
 
 /-! Non-vacuity -/
 def exTasks : List TaskRes :=
